@@ -70,6 +70,9 @@ func (r *Report) Assume(s string) {
 
 func (r *Report) add(rule, construct, pos string, v Verdict, nontrivial bool, format string, args ...any) *Obligation {
 	o := &Obligation{Rule: rule, Construct: construct, Pos: pos, Verdict: v, Detail: fmt.Sprintf(format, args...), Config: r.cfg, NonTrivial: nontrivial}
+	if l := os.Getenv("LOGGCHECK_LIST"); l != "" && strings.HasPrefix(rule, l) {
+		fmt.Fprintf(os.Stderr, "LIST %s %s [%s] %v: %s\n", rule, construct, pos, v, o.Detail)
+	}
 	// the same rule+construct in another configuration: keep the worst verdict
 	for _, e := range r.Obls {
 		if e.Key() == o.Key() {
